@@ -153,7 +153,12 @@ pub fn run_small(w: &mut W) {
         h.small = true;
         let n = 2 + rng.usize(3);
         let ops: Vec<(usize, Vec<u8>)> = (0..n).map(|_| (0usize, h.packet(&mut rng, &w.pools))).collect();
-        let hist = History { family: "small", parsers: vec![super::common::Allowed::gen(&mut rng)], ops };
+        // (no 65 536-entry allowed set here: building it costs the interpreter half a minute)
+        let allowed = match super::common::Allowed::gen(&mut rng) {
+            super::common::Allowed::All => super::common::Allowed::Set(vec![5, 7, 9, 10, 11]),
+            a => a,
+        };
+        let hist = History { family: "small", parsers: vec![allowed], ops };
         let out = exec(&hist);
         w.rep.count("calls", out.calls);
         w.rep.count("bytes", out.bytes);
